@@ -701,6 +701,11 @@ class System:
             if mdl.n == 0:
                 continue
 
+            # variables without addresses (e.g., of dynamic models before the
+            # time-domain initialization) have nothing to point to yet
+            if mdl.flags.address is False:
+                continue
+
             for var in mdl.cache.vars_int.values():
                 var.set_arrays(self.dae, inplace=inplace, alloc=alloc)
 
